@@ -544,7 +544,10 @@ class FundamentalUnits(object):
 
     def __eq__(self, other):
         print(self.exps, other.exps)
-        return (self.exps == other.exps).all()
+        # Same verdict as dividing the units and looking for a remainder
+        # (_build): exponents within the threshold are the same exponent.
+        return (np.abs(self.exps - other.exps)
+                <= self.THRESHOLD_INTEGER).all()
 
     def __ne__(self, other):
         return not (self == other)
